@@ -142,12 +142,28 @@ def run_ops(case):
             if op["op"] != "acc":
                 continue
             x = mk(op["x"], case["scale"], dt)
+            if _forward_overflows(x, case["dim"], m.mean, m.std, case["eps"]):
+                fwd.append(("skip", None))   # (x - mean) / ~1e-38 is beyond the float range: nothing to compare
+                continue
             try:
                 fwd.append(("ok", impl_tensor(m(x))))
             except Exception as e:  # noqa: BLE001
                 fwd.append(("err", exc_kind(e)))
         out["fwd"] = fwd
     return out
+
+
+def _forward_overflows(x, dim, mean, std, eps):
+    """a non-zero numerator over a denominator max(std, eps) < 1e-20 (a history whose last store saw a constant
+    coefficient, applied to earlier data with eps = TINY): the quotient overflows legitimately"""
+    try:
+        if not (torch.isfinite(mean).all() and torch.isfinite(std).all()):
+            return False
+        num = (x.movedim(dim, -1).double() - mean).abs().reshape(-1, mean.numel()).max(0).values
+        den = std.clamp_min(eps)
+        return bool(((num > 0) & (den < 1e-20)).any())
+    except Exception:  # noqa: BLE001
+        return False
 
 
 def lit_ops(case):
@@ -201,22 +217,23 @@ def ops_term(case, out):
     parts = [f"check_ops {cz(case['dim'])} {lit_ops(case)} {tol} {tola} {stores} {final}"]
     if out["fwd"] is not None:
         last = [s for s in out["stores"] if s[0] == "ok"][-1]
-        ftol = cq(_fwd_tol(case, out))
         accs = [op for op in case["ops"] if op["op"] == "acc"]
         for op, f in zip(accs, out["fwd"]):
+            if f[0] == "skip":
+                continue
             if f[0] == "err" and lit_err(f[1]) is None:
                 return "false"
             parts.append(
                 f"check_norm {lit_case_tensor(op['x'], case['scale'], DT[case['dtype']])} {cz(case['dim'])} (Some {lit_qs(fr_list(last[1]))}) "
-                f"(Some {lit_qs(fr_list(last[2]))}) {cq(Fraction(case['eps']))} [] {ftol} {lit_res_tensor(f)}")
+                f"(Some {lit_qs(fr_list(last[2]))}) {cq(Fraction(case['eps']))} [] {cq(_fwd_tol(case, f))} {lit_res_tensor(f)}")
     return "(" + " && ".join(parts) + ")"
 
 
-def _fwd_tol(case, out):
+def _fwd_tol(case, f):
+    """tolerance for one normalised tensor, relative to its largest entry"""
     mx = 1.0
-    for f in out["fwd"] or []:
-        if f[0] == "ok" and f[1]["data"]:
-            mx = max(mx, max(abs(v) for v in f[1]["data"]))
+    if f[0] == "ok" and f[1]["data"] and finite(f[1]["data"]):
+        mx = max(mx, max(abs(v) for v in f[1]["data"]))
     base = TOL32 if case["dtype"] == "f32" else TOL64
     return base * Fraction(mx)
 
@@ -265,7 +282,7 @@ def ops_spec_term(case, out):
             continue
         parts.append(f"spec_norm_formula_okb {lit_case_tensor(op['x'], case['scale'], DT[case['dtype']])} {cz(case['dim'])} "
                      f"{lit_qs(fr_list(last[-1][1]))} {lit_qs(fr_list(last[-1][2]))} {cq(Fraction(case['eps']))} "
-                     f"{cq(_fwd_tol(case, out))} {lit_impl_tensor(f[1])}")
+                     f"{cq(_fwd_tol(case, f))} {lit_impl_tensor(f[1])}")
     return "(" + " && ".join(parts) + ")"
 
 
@@ -316,7 +333,7 @@ def ops_metamorphic(case, out, rng_seed):
                 "repartition": {"mean": m2.mean.tolist(), "std": m2.std.tolist()}, "original": {"mean": st[1], "std": st[2]}}
     if not (finite(st[1]) and finite(st[2])):
         return None
-    if out["fwd"] and all(f[0] == "ok" for f in out["fwd"]) and case["dtype"] == "f64":
+    if out["fwd"] and all(f[0] == "ok" for f in out["fwd"]) and case["dtype"] == "f64":  # (no "skip" entries)
         n = frames.shape[0]
         ys = []
         accs = [o for o in ops if o["op"] == "acc"]
@@ -979,7 +996,7 @@ def gen_cases(chk):
         c = dict(c.get("case", c))
         c["stream"] = "corpus"
         cases.append(c)
-    mult = 24 if th else 1
+    mult = 16 if th else 1
     for _ in range(120 * mult):
         cases.append(gen_ops_random(rng))
     for _ in range(30 * mult):
